@@ -75,6 +75,9 @@ pub fn families(a: &Args, rng: &mut Rng) -> Vec<Fam> {
     for t in every_length_and_holes_family(&pool) {
         v.push(Fam { t, fam: "every-length-lists-and-holes" });
     }
+    for t in without_empty_word_family(&pool) {
+        v.push(Fam { t, fam: "without-empty-word" });
+    }
     for t in excluded_word_family(&pool) {
         v.push(Fam { t, fam: "excluded-word" });
     }
